@@ -186,4 +186,20 @@ def run(ctx):
         else:
             if a.cls != "error" or a.stdout != b"" or b.cls != "error":
                 ctx.violation("cli-index-reject", case, "error, no output", dict(index=str(a), path=str(b)))
+    bad_paths = ["", " ", "m", "m/", "/", "m/0/", "m//0", "x", "m/2147483648", "44'/60'/0'/0/0", "m/0 ", " m/0", "m/0\n"]
+    runs = []
+    for bp in bad_paths:
+        runs.append(dict(args=["address", "--mnemonic", phrase, "--hd-path=" + bp], bp=bp, via="flag"))
+        runs.append(dict(args=["export", "--mnemonic", phrase], env=dict(HD_PATH=bp), bp=bp, via="env"))
+        runs.append(dict(args=["new", "--vanity-prefix", "0x", "-j", "0", "--vanity-hd-path=" + bp], bp=bp, via="vanity"))
+    for rn, r in zip(runs, ctx.cli(runs)):
+        ctx.count("cli/malformed-hd-path/" + rn["via"])
+        ctx.distinct(("badpath", rn["bp"], rn["via"]))
+        # an empty HD_PATH environment variable may be treated by clap as "not given" (then the default account is used):
+        # that is clap's documented behaviour for env values only when it says so; the property wants a refusal for a
+        # malformed path TEXT, so only an explicitly given flag value must be refused
+        if rn["via"] == "env" and rn["bp"] == "":
+            continue
+        if r.cls != "error" or r.stdout != b"":
+            ctx.violation("cli-malformed-hd-path", dict(op="hdwallet " + " ".join(rn["args"]), env=rn.get("env"), path_text=rn["bp"]), "refused, nothing printed", str(r)[:300])
     ctx.exhaustive["boundary values x 2 kinds x depth 1..8 x every position"] = True
